@@ -623,6 +623,7 @@ var dialClauses = map[int]string{
 	121: "a reply that proves acceptance (well-formed token lists) was refused with ErrBadHandshake",
 	122: "more than 1024 body bytes kept with ErrBadHandshake",
 	123: "the URL / header was refused, yet a request was sent",
+	117: "the Host header of the request is neither the URL's host (as written: brackets, port) nor the caller's override",
 	118: "fewer body bytes were kept with ErrBadHandshake than the reply carried (up to 1024)",
 	119: "a URL that is not ws/wss or that carries userinfo was not refused as malformed",
 	124: "the request target is not the URL's path and query",
